@@ -19,12 +19,12 @@ theorem new_ok (A : View α) (N : Nat)  : new A N = .ok (s0 A N) := by
 
 @[simp] def abs (A : View α) (s : State α A.σ) : A.σ × SsState α := (s.view, { i := s.i, filt := s.filt, filt1 := s.filt_1, filt2 := s.filt_2, lastVal := s.last_val })
 
-theorem upd_eq (A : View α)  (s : State α A.σ) (x : α) (hd0 : s.c1 = (ssCoef s.window_len).c1) (hd1 : s.c2 = (ssCoef s.window_len).c2) (hd2 : s.c3 = (ssCoef s.window_len).c3) :
+theorem upd_eq (A : View α)  (s : State α A.σ) (x : α)  (hd0 : s.c1 = (ssCoef s.window_len).c1) (hd1 : s.c2 = (ssCoef s.window_len).c2) (hd2 : s.c3 = (ssCoef s.window_len).c3) :
     (update A s x).map (abs A) = (wrap A (ssCore s.window_len)).upd (abs A s) x := by
   simp only [update, wrap, mapV, binop, ssCore, ssStep, ssOut, ssInit, abs]; gen_tie
-theorem upd_cfg (A : View α) (s s' : State α A.σ) (x : α) : update A s x = .ok s' → s'.window_len = s.window_len ∧ s'.c1 = s.c1 ∧ s'.c2 = s.c2 ∧ s'.c3 = s.c3 := by
+theorem upd_cfg (A : View α) (s s' : State α A.σ) (x : α)  : update A s x = .ok s' → s'.window_len = s.window_len ∧ s'.c1 = s.c1 ∧ s'.c2 = s.c2 ∧ s'.c3 = s.c3 := by
   simp only [update, ssCore, ssStep, ssOut, ssInit]; gen_tie
-theorem last_eq (A : View α)  (s : State α A.σ) (hd0 : s.c1 = (ssCoef s.window_len).c1) (hd1 : s.c2 = (ssCoef s.window_len).c2) (hd2 : s.c3 = (ssCoef s.window_len).c3) : last A s = (wrap A (ssCore s.window_len)).last (abs A s) := by
+theorem last_eq (A : View α)  (s : State α A.σ)  (hd0 : s.c1 = (ssCoef s.window_len).c1) (hd1 : s.c2 = (ssCoef s.window_len).c2) (hd2 : s.c3 = (ssCoef s.window_len).c3) : last A s = (wrap A (ssCore s.window_len)).last (abs A s) := by
   simp only [last, wrap, mapV, binop, ssCore, ssStep, ssOut, ssInit, abs]; gen_tie
 
 def sim (A : View α) (N : Nat)  : Sim (mkView (s0 A N) (update A) (last A)) (wrap A (ssCore N)) where
@@ -34,15 +34,15 @@ def sim (A : View α) (N : Nat)  : Sim (mkView (s0 A N) (update A) (last A)) (wr
   init_abs := by rfl
   upd := fun (s : State α A.σ) x hs => by
     obtain ⟨h0, h1, h2, h3⟩ := hs
-    have := upd_eq A s x  (by (try rw [h0]); exact h1) (by (try rw [h0]); exact h2) (by (try rw [h0]); exact h3)
+    have := upd_eq A s x   (by (try rw [h0]); exact h1) (by (try rw [h0]); exact h2) (by (try rw [h0]); exact h3)
     (try rw [h0] at this); exact this
   upd_cfg := fun (s : State α A.σ) x s' hs h => by
     obtain ⟨h0, h1, h2, h3⟩ := hs
-    have := upd_cfg A s s' x h
+    have := upd_cfg A s s' x  h
     simp_all
   last := fun (s : State α A.σ) hs => by
     obtain ⟨h0, h1, h2, h3⟩ := hs
-    have := last_eq A s  (by (try rw [h0]); exact h1) (by (try rw [h0]); exact h2) (by (try rw [h0]); exact h3)
+    have := last_eq A s   (by (try rw [h0]); exact h1) (by (try rw [h0]); exact h2) (by (try rw [h0]); exact h3)
     (try rw [h0] at this); exact this
 
 /-- the Rust text of `SuperSmoother`, as translated, and the model agree on every input: same answers, same panics -/
